@@ -415,6 +415,11 @@ pub const INJECTORS: &[Inj] = &[
         name: "wrong-signature",
         stage: Stage::Signature,
         apply: |b, r| {
+            if r.chance(1, 4) {
+                // something derived from the correct signature: a prefix, one digit off, decorated
+                b.ov.signature_near = Some(r.below(9) as u8);
+                return true;
+            }
             b.ov.signature = Some(match r.below(11) {
                 0 => "0".repeat(64),
                 1 => r.string_from("0123456789abcdef", 64),
